@@ -237,7 +237,13 @@ def variants_of(g, signed, rng):
     xaddr = bytes([k_addr[0]]) + G.H28(xk)
     xkid = [] if attach else [(4, xk)]
     xck = cenc(Pairs([(1, 1), (3, -8), (-1, 6), (-2, xk)]))
-    signed_by_K('self-extended-kid-honest-address', [(1, -8), (T(b'address'), k_addr)] + xkid, xck)
+    # attached separately, the key blob is not covered by the signature: the signer's 32 bytes followed by 32 others is an
+    # ALTERED key (its hash is not the address credential) -- success would report a binding nobody signed
+    signed_by_K('self-extended-kid-honest-address', [(1, -8), (T(b'address'), k_addr)] + xkid, xck, cls='tamper' if attach else 'neutral')
+    if attach:
+        for extra in (b'\x00', bytes(31), bytes(range(64))):
+            signed_by_K('attached-key-x-extended-%d' % len(extra), [(1, -8), (T(b'address'), k_addr)],
+                        cenc(Pairs([(1, 1), (3, -8), (-1, 6), (-2, K['vk'] + extra)])), cls='tamper')
     signed_by_K('self-extended-kid-whole-key-hash', [(1, -8), (T(b'address'), xaddr)] + xkid, xck)
     if attach:
         pk2 = [(1, -8), (T(b'address'), k_addr)]
